@@ -2,6 +2,7 @@
 computes."""
 from __future__ import annotations
 
+import itertools
 import warnings
 
 import numpy as np
@@ -35,7 +36,7 @@ RULE = ("grammar programs with static shapes and without sparse products / "
         "the forward error bound).  The supported fraction per operation is in"
         " the evidence.  non-trivial = supported outcome with >= 2 operation "
         "nodes; distinct by canonical JSON")
-RULE += "  Round-4 additions: a result returned in a wider floating type than NumPy's must hold only values representable in NumPy's result type (exact rule, no rounding slack); 25 enumerated programs zeros_like/ones_like/astype with a dtype argument different from the operand's, followed by inexact arithmetic in that dtype."
+RULE += "  Round-4 additions: a result returned in a wider floating type than NumPy's must hold only values representable in NumPy's result type (exact rule, no rounding slack); 25 enumerated programs zeros_like/ones_like/astype with a dtype argument different from the operand's, followed by inexact arithmetic in that dtype.  Round 5: all 36 pairs of back-to-back transposes of a (2,3,4) operand; data wrappers viewing one buffer through different strides."
 ASSUMPTIONS = [
     "real numpy stands in for jax.numpy (JAX is not installed)",
     "the reference is NumPy's own evaluation of the program with NumPy's "
@@ -341,7 +342,8 @@ def run_shard(shard: int, nshards: int, seed: int, tier: str) -> ShardResult:
 
     hyp_run(progen.programs(cfg), body, seed, pl["examples"])
     k[0] = 1      # (no renaming in the enumerated cases)
-    for j, spec in enumerate(dtype_override_gadgets()):
+    for j, spec in enumerate(itertools.chain(dtype_override_gadgets(),
+                                             movement_and_view_gadgets())):
         if j % nshards == shard:
             k[0] = 1
             res.count("dtype_override_gadget")
@@ -374,6 +376,49 @@ def dtype_override_gadgets():
                     {"op": "add", "args": [["n", 2], ["n", 1]]},
                     {"op": "truediv", "args": [["n", 3], ["py", 3]]}],
                     "outputs": [["out0", 4]]}
+
+
+def movement_and_view_gadgets():
+    """(a) every ordered pair of axis permutations of a (2,3,4) operand
+    applied back to back; (b) two data wrappers that view ONE buffer with the
+    same start address, shape and dtype through different strides (a / a.T,
+    b[::2] / b[:m])"""
+    perms = [list(p) for p in itertools.permutations(range(3))]
+
+    def ph(name, shape):
+        n = int(np.prod(shape))
+        return {"op": "placeholder", "p": {"name": name, "dtype": "float64",
+                                           "shape": shape, "scale": 0,
+                                           "values": [(7 * i) % 23 - 11
+                                                      for i in range(n)]}}
+    for p1, p2 in itertools.product(perms, perms):
+        yield {"nodes": [ph("x", [2, 3, 4]),
+                         {"op": "transpose", "args": [["n", 0]],
+                          "p": {"axes": p1}},
+                         {"op": "transpose", "args": [["n", 1]],
+                          "p": {"axes": p2}},
+                         {"op": "mul", "args": [["n", 2], ["py", 2]]}],
+               "outputs": [["out0", 3]]}
+    base = [3, -1, 4, 1, -5, 9, 2, -6, 5]
+    arr = np.array(base).reshape(3, 3)
+    views = [
+        ({"values": base, "shape": [3, 3], "kind": "plain"},
+         {"values": [int(v) for v in arr.T.flatten()], "shape": [3, 3],
+          "kind": "T"}, [3, 3], base),
+        ({"values": base[:8][::2], "shape": [4], "kind": "step2"},
+         {"values": base[:4], "shape": [4], "kind": "prefix"}, [8], base[:8]),
+    ]
+    for a, b, bshape, bvals in views:
+        for op in ("sub", "add"):
+            nodes = []
+            for d in (a, b):
+                nodes.append({"op": "data", "p": {
+                    "dtype": "float64", "scale": 0, "shape": d["shape"],
+                    "values": d["values"],
+                    "view": {"arena": 7, "kind": d["kind"],
+                             "base_values": bvals, "base_shape": bshape}}})
+            nodes.append({"op": op, "args": [["n", 0], ["n", 1]]})
+            yield {"nodes": nodes, "outputs": [["out0", 2]]}
 
 
 def _known_strong_scalar(case, failure) -> bool:
